@@ -35,6 +35,7 @@ SCENARIOS = {
 OUT = {b'shell:two': [b'two-1\xc3', b'\xa9two-2'], b'shell:one': [b'one-1'], b'shell:none': [], b'exec:two': [b'x-1', b'x-2']}
 CFG = scen.ops_cfg('two', 4096)
 CFG['shell'] = OUT
+CFG_MIRROR = dict(CFG, remote_ids=scen.REMOTE_FAMILIES['mirror'])
 
 
 def expected(op):
@@ -187,7 +188,7 @@ def run_threads(params, ch):
         _WARM.add(key)
         from ..chooser import FixedChooser
         run_threads(params, FixedChooser())
-    s = Session(ch, CFG, twin='sync', lock_factory=SchedLock, max_calls=5000)
+    s = Session(ch, CFG_MIRROR if params.get('mirror') else CFG, twin='sync', lock_factory=SchedLock, max_calls=5000)
     probe = None
     try:
         r0 = s.op(('connect',))
@@ -225,7 +226,7 @@ def run_threads(params, ch):
             raise HarnessError(sc.verdict)
         dev = [c for c in ch.choices if c]
         return {'outcome': (tuple(r if not (isinstance(r, tuple) and r[0] == 'ok') else 'ok' for r in results), bool(k1), sc.verdict, min(probe.parked, 4)), 'viol': viol,
-                'states': sc.states, 'trans': sc.steps, 'nontrivial': (params['scenario'], params.get('trace', 0), tuple(ch.choices)) if dev else None,
+                'states': sc.states, 'trans': sc.steps, 'nontrivial': (params['scenario'], params.get('trace', 0), params.get('mirror'), tuple(ch.choices)) if dev else None,
                 'extra': {'preemptive_switches': sc.preemptions, 'k1_trigger_executions': 1 if probe.dropped else 0, 'packets_parked_for_another_stream': probe.parked},
                 'sample': {'scenario': params['scenario'], 'trace_level': params.get('trace', 0), 'scheduling_points': sc.steps, 'preemptions': sc.preemptions, 'thread_switches': sc.switches,
                            'results': [r[0] if isinstance(r, tuple) else r for r in results], 'clse_dropped_for': probe.dropped}}
@@ -271,7 +272,7 @@ async def async_op(s, op):
 
 def run_tasks(params, ch):
     ops = SCENARIOS[params['scenario']]
-    s = Session(ch, CFG, twin='async', explore_io=False, max_calls=5000)
+    s = Session(ch, CFG_MIRROR if params.get('mirror') else CFG, twin='async', explore_io=False, max_calls=5000)
     probe = None
     try:
         r0 = s.op(('connect',))
@@ -305,7 +306,7 @@ def run_tasks(params, ch):
         k1 = judge(s, ops, results, verdict, probe.dropped, [], viol)
         dev = [c for c in ch.choices if c]
         return {'outcome': (tuple(r if r[0] != 'ok' else 'ok' for r in results), bool(k1), verdict, min(probe.parked, 4)), 'viol': viol, 'states': states, 'trans': loop.steps,
-                'nontrivial': (params['scenario'], 'async', tuple(ch.choices)) if dev else None, 'extra': {'k1_trigger_executions': 1 if probe.dropped else 0},
+                'nontrivial': (params['scenario'], 'async', params.get('mirror'), tuple(ch.choices)) if dev else None, 'extra': {'k1_trigger_executions': 1 if probe.dropped else 0},
                 'sample': {'scenario': params['scenario'], 'twin': 'async', 'loop_steps': loop.steps, 'io_completions_chosen': loop.io_choices, 'results': [r[0] for r in results],
                            'clse_dropped_for': probe.dropped}}
     finally:
@@ -326,7 +327,7 @@ def parts(tier):
     if rest:
         out.append(Part('threads-2-more', [{'scenario': k} for k in rest], run_threads, {'sched': pb - 1, 'dev-order': None}, split=2,
                         what='2 threads, remaining scenarios', bound='preemptions <= %d' % (pb - 1)))
-    out.append(Part('threads-3', [{'scenario': k} for k in three], run_threads, {'sched': pb - 1, 'dev-order': None}, split=2,
+    out.append(Part('threads-3', [{'scenario': k} for k in three] + [{'scenario': k, 'mirror': True} for k in three], run_threads, {'sched': pb - 1, 'dev-order': None}, split=2,
                     what='3 threads, scheduling points at locks and transport calls', bound='preemptions <= %d' % (pb - 1)))
     if tier == 'quick':
         lines = [{'scenario': 'shell|stat', 'trace': 1}, {'scenario': 'stream|shell', 'trace': 1}, {'scenario': 'push|push', 'trace': 2}]
@@ -338,6 +339,6 @@ def parts(tier):
                         what='line-level scheduling points inside the I/O manager, the packet store, _open and the filesync helpers', bound='preemptions <= 1, <=1 wire-order deviation'))
         out.append(Part('threads-lines-pb2', [{'scenario': 'shell|stat', 'trace': 1}], run_threads, {'sched': 2, 'dev-order': 0}, split=3,
                         what='line-level scheduling points, two preemptions', bound='preemptions <= 2, one scenario'))
-    out.append(Part('tasks', [{'scenario': k} for k in SCENARIOS], run_tasks, {'io-order': None, 'dev-order': None}, split=2,
+    out.append(Part('tasks', [{'scenario': k} for k in SCENARIOS] + [{'scenario': k, 'mirror': True} for k in SCENARIOS], run_tasks, {'io-order': None, 'dev-order': None}, split=2,
                     what='asyncio tasks: every completion order of pending transport I/O x every device wire order', bound='complete (no bound)'))
     return out
